@@ -562,26 +562,46 @@ func (engine) Generate(r *lib.Rng, tier string, i int) any {
 	}
 	c.Nodes = append(c.Nodes, end)
 	// one case in five carries one or two multi-branches (skip propagation in the all-predecessor
-	// modes): From in a layer, Ends = 2-3 nodes of the next layer, Sel = a subset, possibly empty
+	// modes): From in a layer, Ends = 2-3 nodes of the next layer, Sel = a subset, possibly empty.
+	// Half of the two-branch cases are "contested": both branches (different sources of one layer)
+	// have the same node among their ends and neither selects it, and the first source also has a
+	// direct edge to it - the node is triggered by an edge and discarded by branches at once.
 	if L >= 2 && r.Chance(1, 5) {
 		nb := r.Range(1, 2)
 		used := map[int]bool{}
+		contested := -1
 		for k := 0; k < nb; k++ {
 			l := r.Intn(L - 1)
+			if contested >= 0 {
+				l = layerOf(layers, contested) - 1
+			}
+			if len(layers[l+1]) < 2 {
+				continue // a multi-branch needs at least two end nodes
+			}
 			from := layers[l][r.Intn(len(layers[l]))]
 			if used[from] {
 				continue
 			}
 			used[from] = true
-			if len(layers[l+1]) < 2 {
-				continue // a multi-branch needs at least two end nodes
-			}
 			ends := pickSome(r, layers[l+1], r.Range(2, 3))
 			var sel []int
 			for _, e := range ends {
 				if r.Chance(1, 2) {
 					sel = append(sel, e)
 				}
+			}
+			if c.Mode != "pregel" && nb == 2 && r.Chance(1, 2) || contested >= 0 {
+				if contested < 0 {
+					contested = ends[r.Intn(len(ends))]
+					if r.Chance(2, 3) {
+						setPreds(c, contested, []int{from}) // the edge from the first source is its only edge
+					} else {
+						addPred(c, contested, from) // direct edge from the first source
+					}
+				} else if !contains(ends, contested) {
+					ends = sortInts(append(ends, contested))
+				}
+				sel = without(sel, contested)
 			}
 			if c.Mode == "pregel" && len(sel) == 0 {
 				sel = ends[:1]
@@ -649,6 +669,41 @@ func (engine) Generate(r *lib.Rng, tier string, i int) any {
 		c.Traced = 25
 	}
 	return c
+}
+
+func layerOf(layers [][]int, id int) int {
+	for l, layer := range layers {
+		if contains(layer, id) {
+			return l
+		}
+	}
+	return 0
+}
+
+func addPred(c *Case, id, p int) {
+	for k := range c.Nodes {
+		if c.Nodes[k].ID == id && !contains(c.Nodes[k].Preds, p) {
+			c.Nodes[k].Preds = sortInts(append(c.Nodes[k].Preds, p))
+		}
+	}
+}
+
+func setPreds(c *Case, id int, ps []int) {
+	for k := range c.Nodes {
+		if c.Nodes[k].ID == id {
+			c.Nodes[k].Preds = ps
+		}
+	}
+}
+
+func without(xs []int, x int) []int {
+	var out []int
+	for _, y := range xs {
+		if y != x {
+			out = append(out, y)
+		}
+	}
+	return out
 }
 
 func setFail(c *Case, id, kind int) {
@@ -773,6 +828,18 @@ func coqLog(l []exec) string {
 	return "[" + strings.Join(s, ";") + "]"
 }
 
+func (o *runObs) coqOut() string {
+	switch o.Class {
+	case "val":
+		return "RVal " + coqNs(o.Val)
+	case "err":
+		return "RErr"
+	case "panic":
+		return "RPanic"
+	}
+	return "RHang"
+}
+
 func (o *runObs) coq() string {
 	switch o.Class {
 	case "val":
@@ -850,6 +917,22 @@ func (c *Case) coqGraph() string {
 			ps[j] = fmt.Sprint(p)
 		}
 		s[i] = fmt.Sprintf("mkn %d [%s] %d", n.ID, strings.Join(ps, ";"), n.Fail)
+	}
+	return "[" + strings.Join(s, ";") + "]"
+}
+
+func coqInts(xs []int) string {
+	s := make([]string, len(xs))
+	for i, x := range xs {
+		s[i] = fmt.Sprint(x)
+	}
+	return "[" + strings.Join(s, ";") + "]"
+}
+
+func (c *Case) coqBranches() string {
+	s := make([]string, len(c.Branches))
+	for i, b := range c.Branches {
+		s[i] = fmt.Sprintf("mkbr %d %s %s", b.From, coqInts(b.Ends), coqInts(b.Sel))
 	}
 	return "[" + strings.Join(s, ";") + "]"
 }
@@ -992,7 +1075,8 @@ func (engine) Run(ci any) lib.Result {
 			if c.Mode != "eager" && o.spawned != o.collect {
 				fail("uncollected", fmt.Sprintf("batch run returned with %d of %d submitted tasks collected", o.collect, o.spawned))
 			}
-			traces = append(traces, fmt.Sprintf("(%s, %d%%nat)", coqTrace(b, o.events), o.spawned-o.collect))
+			// the whole traced run: trace, outstanding tasks at the return, outcome, every execution started
+			traces = append(traces, fmt.Sprintf("mkrun %s %d%%nat (%s) %s", coqTrace(b, o.events), o.spawned-o.collect, o.coqOut(), coqLog(o.Log)))
 		}
 		// comparable projection of this run
 		cmpLog := o.Log
@@ -1069,12 +1153,16 @@ func (engine) Run(ci any) lib.Result {
 	for i, d := range distinct {
 		obsS[i] = d.coq()
 	}
-	if len(c.Branches) == 0 {
-		res.CoqTerm = fmt.Sprintf("mkcase %d %s [%s] [%s]", modeN, c.coqGraph(), strings.Join(obsS, ";"), strings.Join(traces, ";\n  "))
-	} else {
-		// outside the order-side model: only the protocol traces go to Coq (an empty graph and no
-		// observation make the black-box part of the comparison vacuous)
-		res.CoqTerm = fmt.Sprintf("mkcase %d [] [] [%s]", modeN, strings.Join(traces, ";\n  "))
+	switch {
+	case len(c.Branches) == 0:
+		res.CoqTerm = fmt.Sprintf("mkcase %d %s [] [%s] [%s]", modeN, c.coqGraph(), strings.Join(obsS, ";"), strings.Join(traces, ";\n  "))
+	case c.Mode == "eager":
+		// Workflow with branches: Model/EagerSkip.v
+		res.CoqTerm = fmt.Sprintf("mkcase %d %s %s [%s] [%s]", modeN, c.coqGraph(), c.coqBranches(), strings.Join(obsS, ";"), strings.Join(traces, ";\n  "))
+		res.Tags = append(res.Tags, fmt.Sprintf("branches:%d", len(c.Branches)))
+	default:
+		// batch mode with branches is outside the order-side models: only the protocol traces go to Coq
+		res.CoqTerm = fmt.Sprintf("mkcase %d [] [] [%s] [%s]", modeN, strings.Join(obsS, ";"), strings.Join(traces, ";\n  "))
 		res.Tags = append(res.Tags, fmt.Sprintf("branches:%d", len(c.Branches)))
 	}
 	return res
